@@ -1048,6 +1048,7 @@ def reshape(a, *shape):
     va = _map_axes_through_reshape(a._shape, a.vaxes, shape)
     if va is None:
         r = _opaque_unary("reshape", a, shape=shape, extra=(tuple(repr(d) for d in shape),))
+        r._reshaped_from = a
         return _taped("reshape_opq", [a], r, _no_vjp("reshape"))
     r = Tensor("vec", a.v, shape, a.dtype, va)
     return _taped("reshape", [a], r, lambda g: [reshape(g, a._shape)])
